@@ -6,11 +6,17 @@ import (
 )
 
 func (p *Pool) Stop() {
+	p.runM.Lock()
 	defer p.runM.Unlock()
-	if p.runM.TryLock() {
+
+	if !p.running {
 		slog.Warn("worker pool already stopped")
 		return
 	}
+
+	p.stateM.Lock()
+	p.running = false
+	p.stateM.Unlock()
 
 	p.cancel()
 	vhook.At("wpool.stop.cancelled")
